@@ -423,6 +423,7 @@ func extractC09(c *ctxT) {
 	var methods []c09Method
 	var helpers []c09Helper
 	var runFacts []c09RunFacts
+	var dispGuards []string
 	var sb strings.Builder
 	sb.WriteString("namespace FxVerif.Gen.C09\n\n")
 	sb.WriteString(`structure Method where
@@ -720,6 +721,26 @@ structure Dispatcher where
 			}
 		}
 		disps = append(disps, d)
+		// defer / recover() / panic in the dispatcher itself (a recover there would catch a panic that went through
+		// ExecuteNativeAction without restore or journal entry)
+		dg := [3]int{}
+		if drun != nil && drun.Body != nil {
+			ast.Inspect(drun.Body, func(x ast.Node) bool {
+				switch v := x.(type) {
+				case *ast.DeferStmt:
+					dg[0]++
+				case *ast.CallExpr:
+					switch calleeName(v) {
+					case "recover":
+						dg[1]++
+					case "panic":
+						dg[2]++
+					}
+				}
+				return true
+			})
+		}
+		dispGuards = append(dispGuards, fmt.Sprintf("(%s, %d, %d, %d)", leanStr(pk.name), dg[0], dg[1], dg[2]))
 	}
 
 	sb.WriteString("def methods : List Method := [\n")
@@ -758,6 +779,8 @@ structure Dispatcher where
 	}
 	sb.WriteString("]\n\n")
 	sb.WriteString(c09RunFactsLean(runFacts))
+	sb.WriteString("/-- per dispatcher (contract.go Run): number of defer statements, recover() calls, panic(...) calls -/\n")
+	sb.WriteString("def dispatcherDefers : List (String × Nat × Nat × Nat) := " + leanList(dispGuards) + "\n\n")
 
 	// PackRetErrV2 / PackRetError: do they hand the error back as second result?
 	packOk := map[string]bool{}
